@@ -100,6 +100,26 @@ CHECKS["C14"] = dict(
               "scheduler; concurrent differential run under -race",
 )
 
+CHECKS["C03"] = dict(
+    category="model_checking",
+    text="Precert.tla (abstract TBSCertificate, RemoveExt / BuildPrecertTBS / Final, both routes' entries, SCT list framing; laws "
+         "ExactlyOne, OthersUntouched, BuildTouchesOnly, Commutes, SameEntry, SCTListRoundTrip) is checked by TLC over the full "
+         "enumeration of extension layouts (<=4/5 extensions from 8 kinds, every position of poison / SCT list / AKI, 0-2 occurrences, "
+         "criticality patterns), issuer modes (direct, pre-issuer with AKI none/k1/k2, pre-issuer without CT EKU), field-encoding "
+         "variants and SCT lists of 1..3; every case (13.8k quick / 48k thorough) is DER-encoded by the harness' own builder, signed "
+         "with real keys and replayed into x509.BuildPrecertTBS/RemoveCTPoison/RemoveSCTList, ct.MerkleTreeLeafFromChain/"
+         "FromRawChain/ForEmbeddedSCT, ctutil.VerifySCT/LeafHash, x509util SCT list helpers and submission.ASN1MarshalSCTs; results "
+         "are compared byte for byte with the builder applied to the model's expected TBS; embedded SCTs signed over the independent "
+         "entry must verify, SCTs over another TBS / issuer key hash / log / not embedded must not.",
+    design="4/C03",
+    note="canonical DER TBSCertificates (RFC 5280 time rule), <=5 extensions, <=1 AKI; trusted base cryptobyte + the harness "
+         "builder/RFC 6962 encoders; named clauses for behaviour RFC 6962 leaves open (EmptyExtensionsKept, AkiDropped, "
+         "AkiAppended, AkiAbsent); SHA-256/ECDSA/RSA soundness; LeafHash with non-empty SCT extensions left to C04.",
+    technique="TLA+ case-analysis spec + TLC exhaustive enumeration with laws as invariants; spec->code replay of every case with real "
+              "DER/keys/signatures against an independent builder; seed-randomized materialization of opaque fields; "
+              "corrupted-expectation canaries",
+)
+
 NOT_YET = {}
 
 def main():
